@@ -15,6 +15,7 @@ RULE = ('accepted grammars (generator profile of C02 incl. within-word expressio
         'and of definitions relative to call variants (call-variant order kept). The real binary compiles every '
         'variant for all four shells; the script bytes must equal those of the canonical text. '
         'non-trivial = grammar with >= 1 definition or >= 3 lines after re-layout; distinct by hash of variant text')
+RULE += ' ' + 'Families: alternatives that reference one definition several times (directly and through an alias); dependency DAGs of definitions over a pool of 50 names.'
 ASSUMPTIONS = ['same binary for all variants, so the embedded version string is constant',
                'call-variant order is not permuted (not promised by the statement)']
 MIN_EVALS = {'quick': 1000, 'thorough': 10000}
